@@ -1,7 +1,14 @@
 #!/bin/bash
-# Build the fact extractor (offline, nightly, zero cargo deps) and warm the dependency metadata cache.
+# Build the fact extractor (offline, nightly, zero cargo deps) and warm the dependency metadata cache
+# by extracting facts for the current /repo tree once.
 set -e
 cd "$(dirname "$0")/sfsmir"
 CARGO_NET_OFFLINE=true cargo build --release --offline 2>&1 | tail -3
 cd ../..
-python3 engine/sfsverif/main.py --warm 2>/dev/null || true
+python3 - <<'PY'
+import sys
+sys.path.insert(0, "engine/sfsverif")
+from facts import get_facts
+prog, info = get_facts()
+print("facts ready:", info)
+PY
